@@ -25,6 +25,8 @@ PROFILES = {
     'pseudo': dict(pseudo=1.0, history=0.4, row_budget=10, states_per_region=(2, 2), depth=(2, 3), state_internal=0.0, sm_internal=0.0, regions=(1, 3)),
     'intro': dict(depth=(1, 3), regions=(1, 3), completion=0.3, history=0.5, pseudo=0.6, row_budget=10, states_per_region=(2, 3),
                   state_internal=0.2, sm_internal=0.0, scripts=True, visitable=True),
+    'common': dict(depth=(1, 3), regions=(1, 3), completion=0.3, history=0.4, pseudo=0.4, row_budget=11, states_per_region=(2, 3),
+                   state_internal=0.3, sm_internal=0.0, flags=0.5, blocking=0.25, deferral=0.4, scripts=True),
     'flags': dict(flags=1.0, depth=(1, 3), state_internal=0.0, sm_internal=0.0, scripts=True),
     'policy_after_entry': dict(policy='after_entry', flags=0.7, depth=(1, 3), pseudo=0.3, row_budget=12, state_internal=0.2, sm_internal=0.0, scripts=True),
     'policy_after_action': dict(policy='after_action', flags=0.7, depth=(1, 3), pseudo=0.3, row_budget=12, state_internal=0.2, sm_internal=0.0, scripts=True),
@@ -203,13 +205,13 @@ class Gen:
                   features=dict(scripts=bool(p['scripts']), serialize=bool(p['serialize']), visitable=bool(p['visitable'])))
         if p['flags'] > 0:
             self.add_flags(sp)
-        if p['blocking'] > 0:
+        if p['blocking'] > 0 and self.r.random() < p['blocking']:
             self.add_blocking(sp)
         if p['history'] > 0:
             self.ensure_sub_cycles(sp)
         if p['pseudo'] > 0 and self.r.random() < p['pseudo']:
             self.add_pseudo(sp)
-        if p['deferral'] > 0:
+        if p['deferral'] > 0 and self.r.random() < p['deferral'] and (p['deferral'] >= 1.0 or len(sp['root']['regions']) == 1):
             self.add_deferral(sp)
         sp['nguards'] = min(self.natom, MAX_ATOMS)
         sp['nactions'] = self.nact
